@@ -254,5 +254,8 @@ def run(chk):
             r = it2.call(mo, ms[wname], [1, val], {'set_stellar_orbit': stellar}, self_obj=o)
             ref = call(mp, pyname, [val, Ms if stellar else Mh, Mw[1]])
             eq('R17.4', f'OrbitBase.{wname}(stellar={stellar}) == conversions.{pyname}(value, host mass, world mass)', r, ref, mo.where(ms[wname]))
+    from .common import inplace_lint
+    inplace_lint(chk, repo, 'R17.5', ['TidalPy/utilities/conversions/conversions.py'])
+    chk.floor('R17.5', 1)
     chk.floor('R17.1', 26); chk.floor('R17.2', 17); chk.floor('R17.3', 5); chk.floor('R17.4', 134)
     chk.assume('all inputs positive; cube and square roots are the real positive roots')
